@@ -13,6 +13,10 @@ package main
 //	                          fake of its client interface: an MVCC map that
 //	                          applies the percolator prewrite rule, and a
 //	                          counter as timestamp allocator. No cluster.
+//	NOKV_VERIF_MODE=sched     run main() as usual (real options, real embedded
+//	                          DB, real server) but on an in-process listener,
+//	                          and execute controlled schedules read from stdin:
+//	                          see verifSchedLoop.
 //	NOKV_VERIF_HOTLIMIT=<n>   override Options.WriteHotKeyLimit of the
 //	                          embedded DB opened by main() (0 = no limit).
 //
@@ -38,10 +42,12 @@ import (
 	"runtime/debug"
 	"strconv"
 	"sync"
+	"time"
 
 	NoKV "github.com/feichai0017/NoKV"
 	"github.com/feichai0017/NoKV/pb"
 	"github.com/feichai0017/NoKV/raftstore/client"
+	"github.com/feichai0017/NoKV/utils/verifhook"
 )
 
 type verifRespOut struct {
@@ -229,6 +235,348 @@ func verifServeRaftFake() {
 	if err := newServer(backend).Serve(ln); err != nil {
 		log.Printf("serve: %v", err)
 		os.Exit(1)
+	}
+}
+
+// ---- controlled schedules over the real gateway (sched mode) ----
+//
+// main() runs unchanged except that `listen` returns an in-process listener
+// whose connections are net.Pipe ends. Every client of a request is one such
+// connection, served by the real handleConn goroutine. The yield callback
+// parks a client's handler at "oracle.newCommitTs.lock" (txn.go), so that one
+// grant executes either
+//
+//	begin:  deliver the client's next command and run it through
+//	        newTransaction / Txn.Get / SetEntry up to the commit point
+//	        (or to its reply, if it does not commit), or
+//	commit: oracle.newCommitTs (conflict check, commit timestamp), the write
+//	        and doneCommit, up to the reply.
+//
+// Exactly one client runs at a time; goroutines that do not serve a client
+// connection pass through the yield points.
+//
+// Protocol: one JSON request per line on stdin, one JSON result per line on
+// stdout. Arguments and replies are hex strings.
+
+type verifSchedReq struct {
+	Setup    [][]string   `json:"setup"`
+	Clients  [][][]string `json:"clients"`
+	Schedule []int        `json:"schedule"`
+	Final    [][]string   `json:"final"`
+}
+
+type verifSchedStep struct {
+	Client int    `json:"client"`
+	Step   string `json:"step"` // begin | commit | skip
+}
+
+type verifSchedRes struct {
+	Setup   []string         `json:"setup"`
+	Clients [][]string       `json:"clients"`
+	Trace   []verifSchedStep `json:"trace"`
+	Final   []string         `json:"final"`
+	Err     string           `json:"err,omitempty"`
+}
+
+type verifPipeListener struct {
+	ch   chan net.Conn
+	done chan struct{}
+	once sync.Once
+}
+
+func (l *verifPipeListener) Accept() (net.Conn, error) {
+	select {
+	case c := <-l.ch:
+		return c, nil
+	case <-l.done:
+		return nil, net.ErrClosed
+	}
+}
+func (l *verifPipeListener) Close() error   { l.once.Do(func() { close(l.done) }); return nil }
+func (l *verifPipeListener) Addr() net.Addr { return &net.UnixAddr{Name: "verif-sched", Net: "pipe"} }
+
+type verifSchedClient struct {
+	conn     net.Conn
+	rd       *bufio.Reader
+	cmds     [][]string
+	next     int
+	inflight bool
+	parked   bool
+	resume   bool
+	gid      uint64
+	replies  []string
+	dead     error
+}
+
+type verifSched struct {
+	mu     sync.Mutex
+	cond   *sync.Cond
+	byGid  map[uint64]*verifSchedClient
+	active *verifSchedClient
+}
+
+var verifTheSched *verifSched
+
+func verifCurGid() (uint64, bool) {
+	buf := make([]byte, 8192)
+	b := buf[:runtime.Stack(buf, false)]
+	isConn := bytes.Contains(b, []byte("handleConn"))
+	b = bytes.TrimPrefix(b, []byte("goroutine "))
+	i := bytes.IndexByte(b, ' ')
+	if i < 0 {
+		return 0, false
+	}
+	n, _ := strconv.ParseUint(string(b[:i]), 10, 64)
+	return n, isConn
+}
+
+func (s *verifSched) yield(name string) {
+	if name != "oracle.readTs.lock" && name != "oracle.newCommitTs.lock" {
+		return
+	}
+	gid, isConn := verifCurGid()
+	s.mu.Lock()
+	defer s.mu.Unlock()
+	c := s.byGid[gid]
+	if c == nil {
+		if !isConn || s.active == nil || s.active.gid != 0 {
+			return
+		}
+		c = s.active
+		c.gid = gid
+		s.byGid[gid] = c
+	}
+	if name != "oracle.newCommitTs.lock" {
+		return
+	}
+	c.parked = true
+	s.cond.Broadcast()
+	for !c.resume {
+		s.cond.Wait()
+	}
+	c.resume = false
+}
+
+func verifEncodeHexCmd(args []string) []byte {
+	var b []byte
+	b = append(b, fmt.Sprintf("*%d\r\n", len(args))...)
+	for _, h := range args {
+		a, _ := hex.DecodeString(h)
+		b = append(b, fmt.Sprintf("$%d\r\n", len(a))...)
+		b = append(b, a...)
+		b = append(b, '\r', '\n')
+	}
+	return b
+}
+
+func verifReadReply(r *bufio.Reader) ([]byte, error) {
+	line, err := r.ReadBytes('\n')
+	if err != nil {
+		return line, err
+	}
+	out := append([]byte(nil), line...)
+	if len(line) < 3 {
+		return out, fmt.Errorf("short reply %q", line)
+	}
+	n, _ := strconv.Atoi(string(line[1 : len(line)-2]))
+	switch line[0] {
+	case '$':
+		if n >= 0 {
+			buf := make([]byte, n+2)
+			if _, err := io.ReadFull(r, buf); err != nil {
+				return out, err
+			}
+			out = append(out, buf...)
+		}
+	case '*':
+		for i := 0; i < n; i++ {
+			sub, err := verifReadReply(r)
+			out = append(out, sub...)
+			if err != nil {
+				return out, err
+			}
+		}
+	}
+	return out, nil
+}
+
+// wait blocks until cond() holds or the deadline passes.
+func (s *verifSched) wait(cond func() bool) bool {
+	deadline := time.Now().Add(30 * time.Second)
+	timer := time.AfterFunc(31*time.Second, func() { s.mu.Lock(); s.cond.Broadcast(); s.mu.Unlock() })
+	defer timer.Stop()
+	for !cond() {
+		if time.Now().After(deadline) {
+			return false
+		}
+		s.cond.Wait()
+	}
+	return true
+}
+
+// grant runs one step of client c (s.mu held).
+func (s *verifSched) grant(c *verifSchedClient) (string, error) {
+	settled := func() bool { return c.parked || !c.inflight || c.dead != nil }
+	switch {
+	case c.dead != nil:
+		return "skip", nil
+	case c.parked:
+		c.parked, c.resume = false, true
+		s.active = c
+		s.cond.Broadcast()
+		ok := s.wait(settled)
+		s.active = nil
+		if !ok {
+			return "commit", fmt.Errorf("client did not settle after its commit step")
+		}
+		return "commit", nil
+	case !c.inflight && c.next < len(c.cmds):
+		cmd := verifEncodeHexCmd(c.cmds[c.next])
+		c.next++
+		c.inflight = true
+		s.active = c
+		s.mu.Unlock()
+		_, err := c.conn.Write(cmd)
+		s.mu.Lock()
+		if err != nil {
+			s.active = nil
+			return "begin", err
+		}
+		ok := s.wait(settled)
+		s.active = nil
+		if !ok {
+			return "begin", fmt.Errorf("client did not settle after its begin step")
+		}
+		return "begin", nil
+	}
+	return "skip", nil
+}
+
+func (s *verifSched) runRequest(ln *verifPipeListener, ctl *verifSchedClient, req *verifSchedReq) (res verifSchedRes) {
+	do := func(args []string) string {
+		if _, err := ctl.conn.Write(verifEncodeHexCmd(args)); err != nil {
+			res.Err = "control write: " + err.Error()
+			return ""
+		}
+		rep, err := verifReadReply(ctl.rd)
+		if err != nil {
+			res.Err = "control read: " + err.Error()
+		}
+		return hex.EncodeToString(rep)
+	}
+	for _, a := range req.Setup {
+		res.Setup = append(res.Setup, do(a))
+	}
+	clients := make([]*verifSchedClient, len(req.Clients))
+	for i, cmds := range req.Clients {
+		a, b := net.Pipe()
+		ln.ch <- b
+		c := &verifSchedClient{conn: a, rd: bufio.NewReader(a), cmds: cmds}
+		clients[i] = c
+		go func() {
+			for {
+				rep, err := verifReadReply(c.rd)
+				s.mu.Lock()
+				if err != nil {
+					c.dead = err
+					c.inflight = false
+					s.cond.Broadcast()
+					s.mu.Unlock()
+					return
+				}
+				c.replies = append(c.replies, hex.EncodeToString(rep))
+				c.inflight = false
+				s.cond.Broadcast()
+				s.mu.Unlock()
+			}
+		}()
+	}
+	s.mu.Lock()
+	step := func(id int) bool {
+		if id < 0 || id >= len(clients) {
+			res.Trace = append(res.Trace, verifSchedStep{Client: id, Step: "skip"})
+			return false
+		}
+		st, err := s.grant(clients[id])
+		res.Trace = append(res.Trace, verifSchedStep{Client: id, Step: st})
+		if err != nil && res.Err == "" {
+			res.Err = fmt.Sprintf("client %d: %v", id, err)
+		}
+		return st != "skip"
+	}
+	for _, id := range req.Schedule {
+		if res.Err != "" {
+			break
+		}
+		step(id)
+	}
+	// drain: round-robin until nobody can move
+	for moved, rounds := true, 0; moved && res.Err == "" && rounds < 10000; rounds++ {
+		moved = false
+		for id := range clients {
+			c := clients[id]
+			if c.parked || (!c.inflight && c.next < len(c.cmds) && c.dead == nil) {
+				if step(id) {
+					moved = true
+				}
+			}
+		}
+	}
+	for _, c := range clients {
+		if c.parked { // only after an error: let it go
+			c.parked, c.resume = false, true
+		}
+		delete(s.byGid, c.gid)
+		res.Clients = append(res.Clients, append([]string{}, c.replies...))
+	}
+	s.cond.Broadcast()
+	s.mu.Unlock()
+	for _, c := range clients {
+		_ = c.conn.Close()
+	}
+	for _, a := range req.Final {
+		res.Final = append(res.Final, do(a))
+	}
+	return res
+}
+
+func verifSchedLoop(ln *verifPipeListener) {
+	s := &verifSched{byGid: map[uint64]*verifSchedClient{}}
+	s.cond = sync.NewCond(&s.mu)
+	verifTheSched = s
+	verifhook.SetYield(s.yield)
+	a, b := net.Pipe()
+	ln.ch <- b
+	ctl := &verifSchedClient{conn: a, rd: bufio.NewReader(a)}
+	in := bufio.NewReaderSize(os.Stdin, 1<<20)
+	out := bufio.NewWriter(os.Stdout)
+	enc := json.NewEncoder(out)
+	for {
+		line, err := in.ReadBytes('\n')
+		if len(bytes.TrimSpace(line)) > 0 {
+			var req verifSchedReq
+			var res verifSchedRes
+			if jerr := json.Unmarshal(line, &req); jerr != nil {
+				res.Err = "bad request: " + jerr.Error()
+			} else {
+				res = s.runRequest(ln, ctl, &req)
+			}
+			_ = enc.Encode(res)
+			_ = out.Flush()
+		}
+		if err != nil {
+			break
+		}
+	}
+	os.Exit(0)
+}
+
+func init() {
+	switch os.Getenv("NOKV_VERIF_MODE") {
+	case "sched":
+		ln := &verifPipeListener{ch: make(chan net.Conn), done: make(chan struct{})}
+		listen = func(string, string) (net.Listener, error) { return ln, nil }
+		go verifSchedLoop(ln)
 	}
 }
 
